@@ -1147,7 +1147,11 @@ pub fn process_incomplete_version<T: Deref<Target = rusqlite::Connection> + Comm
     for change in changes.iter() {
         trace!("buffering change! {change:?}");
 
-        // insert change, do nothing on conflict
+        // insert change, do nothing on conflict... except when the stored row is a row marker:
+        // a node that relays a version can attribute the marker of a re-created row to the
+        // very (db_version, seq) of the column change that re-created it, so both arrive with
+        // the same seq. The column change carries the causal length too, the marker does not
+        // carry the value: keep the column change.
         let new_insertion = sp
             .prepare_cached(
                 r#"
@@ -1156,7 +1160,15 @@ pub fn process_incomplete_version<T: Deref<Target = rusqlite::Connection> + Comm
                 VALUES
                     (:table, :pk, :cid, :val, :col_version, :db_version, :site_id, :cl, :seq, :ts)
                 ON CONFLICT (site_id, db_version, seq)
-                    DO NOTHING
+                    DO UPDATE SET
+                        "table" = excluded."table",
+                        pk = excluded.pk,
+                        cid = excluded.cid,
+                        val = excluded.val,
+                        col_version = excluded.col_version,
+                        cl = excluded.cl,
+                        ts = excluded.ts
+                    WHERE cid = '-1' AND excluded.cid != '-1'
             "#,
             )?
             .execute(named_params! {
